@@ -43,7 +43,7 @@ def correspond(ctx):
     ca = core.impl_module()
     from cisco_acl import protocol as pr
     rnd = random.Random(ctx.seed)
-    n = 140 if ctx.tier == "quick" else 4000
+    n = 140 if ctx.tier == "quick" else 2000
     cases, nontrivial = [], set()
     names = pr.NR_TO_PROTOCOL["ios"]
     for _ in range(n):
@@ -60,7 +60,7 @@ def correspond(ctx):
         if not isinstance(impl, core.Err) and len(impl[0]) > 1:
             nontrivial.add(sp["text"])
     # ACL level: in place, remarks kept, also through platform = nxos
-    m = 50 if ctx.tier == "quick" else 1500
+    m = 50 if ctx.tier == "quick" else 500
     for _ in range(m):
         entries = []
         for _ in range(rnd.randint(1, 6)):
@@ -112,7 +112,7 @@ def _split_histories(ctx, ca, rnd):
     from harness.kernels import ops, acetext
     from harness.props import C17
     specs = []
-    for _ in range(40 if ctx.tier == "quick" else 1500):
+    for _ in range(40 if ctx.tier == "quick" else 400):
         body = []
         for i in range(rnd.randint(3, 8)):
             if rnd.random() < 0.18:
